@@ -19,6 +19,7 @@ pub fn spec() -> PropSpec {
         assumptions: &["Some(\"\") and None both render blank and are not distinguished", "gate states where the capability was only seen in a DF17 header are not used here (see C10)"],
         workers: 16,
         also_nochk: false,
+        fuzz_target: None,
         quick_budget_s: 900,
         thorough_budget_s: 3600,
         min_nontrivial_quick: 40_000,
